@@ -6,6 +6,7 @@ Implementation under test (imported from /repo as it is now):
   scales.mux.sink.MuxSocketTransportSink.AsyncProcessRequest (header ++ body, via a captured send queue)
 Model: coq/Model/MuxCodec.v.  Monitor: an independent Python mux decoder (third implementation).
 """
+import json
 import io
 import struct
 import sys
@@ -23,6 +24,10 @@ RULE = ('seeded generator over header fields (all message-type constants, tag ed
         '2^24-1 and random, out-of-range values), context dictionaries with ASCII/Latin-1/BMP/astral/empty/32767-32768-byte '
         'strings, colliding property/header keys, private "__" keys, deadlines at int64 edges, payload sizes 0..2000 '
         '(to 200k for the python-only third decoder), reply prefixes with 0..4 context pairs incl. truncated ones; '
+        'whole-connection byte streams (real thriftmux client stack in the simulated world, two-part blocking socket writes, '
+        'keep-alive pings every 2-40 ticks, payloads 0-3000 bytes, deadlines producing Tdiscarded, peers closing/resetting, '
+        'client close): the bytes that reached the peer are split by the model reader and must be exactly the buffers handed to '
+        'the socket, each a well-formed client frame; '
         'non-trivial = the implementation produced bytes (no exception) and the input is not all-ASCII-empty; distinct by '
         'canonical JSON of (case, observation)')
 TRUSTED = ['Thrift library (TBinaryProtocol) produces the opaque call payload inside Tdispatch; it is compared byte for byte '
@@ -33,7 +38,7 @@ ASSUMPTIONS = ['struct.pack/unpack semantics of CPython as transcribed in Model/
 
 MANIFEST = {
     'text': ('Theorems C13_length_exact, C13_dispatch_roundtrip, C13_discard_roundtrip, C13_header_inverse, C13_header_total, '
-             'C13_rdispatch_skip, C13_utf8_len_ge hold for every type, tag, context dictionary, string and payload (no size bound) of '
+             'C13_rdispatch_skip, C13_utf8_len_ge, C13_stream_self_delimiting, C13_stream_cut_tail, C13_frames_are_well_formed hold for every type, tag, context dictionary, string and payload (no size bound) of '
              'the Gallina transcription of the ThriftMux encoder/readers, against an independently written decoder; the '
              'transcription is compared with the real code on ~1.6k (quick) / ~13k (thorough) generated inputs per run.'),
     'note': ('Trusted: Coq kernel; the correspondence harness (harness/props/c13.py) and its sampling; struct semantics as modelled in '
@@ -117,6 +122,34 @@ def rand_dict(r, n):
   return d
 
 
+def gen_stream(r):
+  """A whole connection's byte stream: the real thriftmux client stack in the simulated world, slow (two-part, blocking)
+  socket writes, keep-alive pings every few ticks, calls with assorted payload sizes and deadlines (so Tdispatch, Tping
+  and Tdiscarded frames compete for the socket), now and then a peer that closes or a client that is closed mid-run."""
+  timeout = r.choice([6, 12, 24, 48])
+  n_calls = r.choice([2, 4, 6, 10])
+  ep = {'port': 9001, 'send_delay': r.choice([1, 2, 3, 5, 8]), 'ping': True,
+        'default': {'act': 'reply', 'delay': r.choice([0, 1, 3, timeout + 2])}, 'plan': {}, 'reach': []}
+  evs = []
+  t = 0
+  for i in range(n_calls):
+    cid = 'c%d' % i
+    t += r.choice([0, 0, 1, 2, 5, 9])
+    evs.append({'at': t, 'op': 'call', 'id': cid, 'pad': 'p' * r.choice([0, 1, 10, 100, 700, 3000])})
+    x = r.random()
+    if x < 0.3:
+      ep['plan'][cid] = {'act': 'drop'}
+    elif x < 0.4:
+      ep['plan'][cid] = {'act': r.choice(['close', 'reset']), 'delay': r.choice([0, 2, 7])}
+  if r.random() < 0.15:
+    evs.append({'at': r.randrange(0, t + 10), 'op': 'close'})
+  spec = {'stack': 'mux', 'tie': r.choice(['fifo', 'lifo']), 'timeout': timeout, 'seed': r.randrange(1 << 30),
+          'endpoints': [ep], 'events': sorted(evs, key=lambda e: e['at']), 'faults': [],
+          'ping_ticks': [r.choice([2, 3, 5]), r.choice([7, 11, 13]), r.choice([17, 40])],
+          'horizon': t + timeout + r.choice([20, 60, 150]), 'open_limit': 640}
+  return {'kind': 'stream', 'spec': spec}
+
+
 def gen_cases(tier, seed):
   n = 1200 if tier == 'quick' else 12000
   out = []
@@ -143,6 +176,8 @@ def gen_cases(tier, seed):
                    'deadline': r.choice([None, None, 1790000000.5 + r.randrange(0, 1000), 0.25])})
     out.append({'kind': 'pipeline', 'msgs': msgs, 'now': 1790000000 + r.randrange(0, 10 ** 6) + r.choice([0.0, 0.75]),
                 'client_id': r.choice([None, 'cid', rand_text(r, 8) or 'x'])})
+  for i in range(n // 40):
+    out.append(gen_stream(C.case_rng(seed, PID + 'stream', i)))
   for i in range(n):
     r = C.case_rng(seed, PID, i)
     k = r.random()
@@ -313,6 +348,19 @@ def _run_pipeline(case):
   return {'frames': out}
 
 
+def _run_stream(case):
+  import subprocess
+  import sys
+  p = subprocess.run([sys.executable, '-m', 'harness.streamrun'], input=json.dumps([case['spec']]).encode(),
+                     stdout=subprocess.PIPE, stderr=subprocess.PIPE, cwd=C.VERIF, timeout=600)
+  if p.returncode != 0:
+    raise RuntimeError('streamrun failed: %s' % p.stderr.decode()[-400:])
+  o = json.loads(p.stdout.decode())[0]
+  if 'harness_error' in o:
+    raise RuntimeError('streamrun: ' + o['harness_error'])
+  return o
+
+
 def _pipeline_parts(case, m):
   """(props as supplied to the serializer, headers it adds) for one message of a pipeline case."""
   props = [[kk, dict(vv)] for kk, vv in m['props']]
@@ -338,6 +386,8 @@ def run_impl(case):
   k = case['kind']
   if k == 'pipeline':
     return _run_pipeline(case)
+  if k == 'stream':
+    return _run_stream(case)
   try:
     if k == 'header':
       sink = _S['SocketTransportSink'].__new__(_S['SocketTransportSink'])
@@ -513,11 +563,70 @@ def _monitor_pipeline(case, obs):
   return v
 
 
+def py_split_stream(b):
+  """Independent stream reader: 4-byte size, that many bytes, repeat; returns (frames, unread tail)."""
+  frames = []
+  o = 0
+  while len(b) - o >= 4:
+    size = int.from_bytes(b[o:o + 4], 'big')
+    if len(b) - o - 4 < size:
+      break
+    frames.append(b[o:o + 4 + size])
+    o += 4 + size
+  return frames, b[o:]
+
+
+def _monitor_stream(case, obs):
+  v = []
+  for c in obs['conns']:
+    where = 'connection %d to port %d' % (c['cid'], c['port'])
+    writes = [bytes(x) for x in c['writes']]
+    stream = bytes(c['stream'])
+    frames, tail = py_split_stream(stream)
+    for i, f in enumerate(frames):
+      try:
+        t, tag, body = py_parse_frame(f)
+        if t == 2:
+          py_parse_tdispatch(body)
+        elif t == 65:
+          if body:
+            raise ValueError('Tping with a body')
+        elif t == 66:
+          if tag != 0 or len(body) < 3:
+            raise ValueError('malformed Tdiscarded')
+        else:
+          raise ValueError('type %d is not a client frame' % t)
+      except Exception as e:
+        v.append(('stream-out-of-sync', '%s: frame %d read from the byte stream is not a frame the client may send (%s): '
+                  'the size prefix is not followed by its own bytes' % (where, i, e)))
+        break
+    if v:
+      break
+    if frames != writes[:len(frames)]:
+      i = [j for j in range(len(frames)) if j >= len(writes) or frames[j] != writes[j]][0]
+      v.append(('stream-not-the-written-frames', '%s: frame %d on the wire differs from the %dth buffer handed to the socket'
+                % (where, i, i)))
+      break
+    rest = b''.join(writes[len(frames):])
+    if not rest.startswith(tail):
+      v.append(('stream-tail-garbled', '%s: %d trailing bytes are not the beginning of the next written frame' % (where, len(tail))))
+      break
+    if not c['closed']:
+      # nothing may be lost on a live connection; a write still blocked when the run ends may be half delivered
+      missing = writes[len(frames):]
+      if len(missing) > 1:
+        v.append(('stream-frames-missing', '%s: %d written frames never reached the live peer' % (where, len(missing))))
+        break
+  return v
+
+
 def monitor(case, obs):
   k = case['kind']
   v = []
   if k == 'pipeline':
     return _monitor_pipeline(case, obs)
+  if k == 'stream':
+    return _monitor_stream(case, obs)
   if k == 'header':
     ok_in = -128 <= case['type'] <= 127 and -2 ** 31 <= case['dlen'] + 4 < 2 ** 31
     if 'exc' in obs:
@@ -644,6 +753,15 @@ def to_coq(case, obs):
       tag = fr.get('tag') or 0
       terms.append('CDispatch %s %s %s %s %s' % (C.zlit(tag), _entries(props), _entries(headers), C.bytes_lit(payload), e))
     return terms
+  if k == 'stream':
+    terms = []
+    for c in obs['conns']:
+      if len(c['stream']) > 6000:
+        continue          # evaluated by the Python reader only (size of the Coq literal)
+      # complete = live connection and every write finished (a write still blocked at the end of the run may be cut)
+      complete = (not c['closed']) and len(c['stream']) == sum(len(x) for x in c['writes'])
+      terms.append('CStream %s %s %s' % (C.lst([C.bytes_lit(x) for x in c['writes']]), C.bytes_lit(c['stream']), C.blit(complete)))
+    return terms
   exp_bytes = C.opt(C.bytes_lit(obs['bytes'])) if 'bytes' in obs else 'None'
   if k == 'header':
     return 'CHeader %s %s %s %s' % (C.zlit(case['tag']), C.zlit(case['type']), C.zlit(case['dlen']), exp_bytes)
@@ -674,6 +792,8 @@ def to_coq(case, obs):
 def nontrivial(case, obs):
   if case['kind'] == 'pipeline':
     return len(obs.get('frames', [])) >= 2
+  if case['kind'] == 'stream':
+    return any(len(c['writes']) >= 3 for c in obs.get('conns', []))
   if 'exc' in obs:
     return False
   if case['kind'] == 'dispatch':
@@ -684,6 +804,9 @@ def nontrivial(case, obs):
 def describe(case, obs):
   c = dict(case)
   o = dict(obs)
+  if case['kind'] == 'stream':
+    o['conns'] = [{'port': x['port'], 'cid': x['cid'], 'closed': x['closed'], 'write_sizes': [len(y) for y in x['writes']],
+                   'stream_len': len(x['stream']), 'stream_head': x['stream'][:96]} for x in obs.get('conns', [])]
   if 'bytes' in o and len(o['bytes']) > 64:
     o['bytes'] = o['bytes'][:64] + ['...%d more' % (len(o['bytes']) - 64)]
   return {'case': c, 'obs': o}
@@ -693,7 +816,7 @@ def stats(cases, obs):
   exc = {}
   nonascii = 0
   for c, o in zip(cases, obs):
-    if c['kind'] == 'pipeline':
+    if c['kind'] in ('pipeline', 'stream'):
       continue
     if 'exc' in o:
       exc[o['exc']] = exc.get(o['exc'], 0) + 1
